@@ -14,6 +14,10 @@ CLAIMED = {
  "C10": ("release step at every writer begin under metalock, every exit of a read transaction reaches RemoveReadonlyTXID, same registration key, ReleasePendingPages tabulated for 0/1/2 readers, order-dependent reads of the reader list preceded by a sort, counts published before the writer lock is released", "4 C10"),
  "C11": ("checksum covers every byte before it on all gc architectures, Validate truth table (8 rows), validate-before-use in page-size probing and Open, decision tables of db.mmap / db.meta() / getPageSize, every rejecting exit of Open closes and returns an error", "4 C11"),
  "C12": ("version-2 layout table of the 5 mapped structs on all gc architectures, format constants, checksum algorithm and coverage, writer/reader field pairing, 0xFFFF convention, initial 4-page layout evaluated from init, checksum-after-mutation", "4 C12"),
+ "C14": ("backup cut from tx.meta (never db.meta()), both meta pages checksummed after their last change with page 0 keeping the higher txid, data window [2*pageSize, tx.Size()) and byte accounting on the success path and on each failing write (WriteTo evaluated symbolically), CopyFile closes the destination and returns the close error", "4 C14"),
+ "C15": ("SetSequence(seq) after every CreateBucket in both arms with seq = Sequence() of the reported bucket, one captured transaction cell re-assigned after an intermediate commit, source flows only into walk -> View and is opened ReadOnly by the CLI, callback/walk errors abort before the final commit", "4 C15"),
+ "C18": ("the size handed to file.Truncate is compared with / clamped to db.MaxSize on every path (windows: in db.mmap before mapping), size-limit error raised before remap and before the high-water mark moves and propagated unchanged, DB.MaxSize has Options.MaxSize as its only source", "4 C18"),
+ "C20": ("every surgery writer call takes the --output path and is dominated by a successful CopyFile(source, output), the source path is only read, CopyFile refuses an existing destination, raw page writers confined to surgery, rewritten metas re-checksummed and both metas cleared, revert copies the other meta (tabulated) and retargets the page id before writing", "4 C20"),
  "C06": ("write offsets derive only from ids of pages in tx.pages (filled only by tx.allocate from db.allocate: freelist.Allocate or the high-water mark), free-set entry chain (Free makes pages pending only; mergeSpans/Init only from the release / reload paths) under VTA and CHA, frees and rollbacks under the writer's own txid, free-before-allocate in spill, meta slot, file-writer allow-list", "4 C06"),
  "C08": ("every error exit of Commit passes the physical rollback (directly or through commitFreelist's summary), shape of rollback (freelist.Rollback, reload from the committed state chosen by hasSyncedFreelist, close), db.allocate has no error exit after an effect and raises the size-limit error first, no I/O error dropped, no rollback after the meta write was issued (one known finding, demonstrated at runtime in findings/F5)", "4 C08"),
  "C17": ("lock request per GOOS tabulated over exclusive/outcome (exclusive iff read-write, non-blocking, retry until timeout), lock-before-content and flag selection in Open, read-only refuses writers before any state change and never reaches a file writer, read-only mapping protection constants on every GOOS, close always closes the descriptor and Close takes all three locks, CLI inspection commands open ReadOnly", "4 C17"),
